@@ -30,9 +30,11 @@ class MulLinearOperator(LinearOperator):
         if left_linear_op._root_decomposition_size() < right_linear_op._root_decomposition_size():
             left_linear_op, right_linear_op = right_linear_op, left_linear_op
 
-        if not isinstance(left_linear_op, RootLinearOperator):
+        # (an upper-orientation Cholesky operator R^T R is a RootLinearOperator whose `root` attribute is not a root
+        # in the sense used below - root @ root^T: take its proper root form)
+        if not isinstance(left_linear_op, RootLinearOperator) or getattr(left_linear_op, "upper", False):
             left_linear_op = left_linear_op.root_decomposition()
-        if not isinstance(right_linear_op, RootLinearOperator):
+        if not isinstance(right_linear_op, RootLinearOperator) or getattr(right_linear_op, "upper", False):
             right_linear_op = right_linear_op.root_decomposition()
         super().__init__(left_linear_op, right_linear_op)
         self.left_linear_op = left_linear_op
@@ -68,9 +70,9 @@ class MulLinearOperator(LinearOperator):
             n = self.size(-1)
             m = rhs.size(-1)
             # Now implement the formula (A . B) v = diag(A D_v B)
-            left_res = left_res.view(*output_batch_shape, n, rank * m)
+            left_res = left_res.reshape(*output_batch_shape, n, rank * m)
             left_res = self.right_linear_op._matmul(left_res)
-            left_res = left_res.view(*output_batch_shape, n, rank, m)
+            left_res = left_res.reshape(*output_batch_shape, n, rank, m)
             res = left_res.mul_(left_root.unsqueeze(-1)).sum(-2)
         # This is the case where we're not doing a root decomposition, because the matrix is too small
         else:  # Dead?
@@ -107,8 +109,8 @@ class MulLinearOperator(LinearOperator):
             left_factor = left_vecs.unsqueeze(-2) * self.right_linear_op.to_dense().unsqueeze(-1)
             right_factor = right_vecs.unsqueeze(-2) * eye.unsqueeze(-1)
 
-        left_factor = left_factor.view(*batch_shape, n, num_vecs * right_rank)
-        right_factor = right_factor.view(*batch_shape, n, num_vecs * right_rank)
+        left_factor = left_factor.reshape(*batch_shape, n, num_vecs * right_rank)
+        right_factor = right_factor.reshape(*batch_shape, n, num_vecs * right_rank)
         left_deriv_args = self.left_linear_op._bilinear_derivative(left_factor, right_factor)
 
         if isinstance(self.left_linear_op, RootLinearOperator):
@@ -122,8 +124,8 @@ class MulLinearOperator(LinearOperator):
             left_factor = left_vecs.unsqueeze(-2) * self.left_linear_op.to_dense().unsqueeze(-1)
             right_factor = right_vecs.unsqueeze(-2) * eye.unsqueeze(-1)
 
-        left_factor = left_factor.view(*batch_shape, n, num_vecs * left_rank)
-        right_factor = right_factor.view(*batch_shape, n, num_vecs * left_rank)
+        left_factor = left_factor.reshape(*batch_shape, n, num_vecs * left_rank)
+        right_factor = right_factor.reshape(*batch_shape, n, num_vecs * left_rank)
         right_deriv_args = self.right_linear_op._bilinear_derivative(left_factor, right_factor)
 
         return tuple(list(left_deriv_args) + list(right_deriv_args))
